@@ -218,12 +218,18 @@ func (r *Replica) signProbeCall(ctx sdk.Context, signer int, reqs string, dynami
 		return nil, fmt.Errorf("the probe contract is not deployed in this history")
 	}
 	to := r.Probe
-	msg, err := r.ethMsg(ctx, signer, &to, big.NewInt(0), probeCalldata(parseReqs(reqs)), 1_500_000, dynamic, 0)
+	rs := parseReqs(reqs)
+	msg, err := r.ethMsg(ctx, signer, &to, big.NewInt(0), probeCalldata(rs), probeGas(len(rs)), dynamic, 0)
 	if err != nil {
 		return nil, err
 	}
 	return r.ethTxBytes(msg)
 }
+
+// probeGas: a limit close to what the call needs (about 50,000 + 22,100 per stored non-zero hash): the gas
+// used that is reported is at least half the limit (feemarket MinGasMultiplier), a generous limit would hide
+// that a zero hash costs less to store than a non-zero one.
+func probeGas(n int) uint64 { return 150_000 + 25_000*uint64(n) }
 
 // probeRet extracts the contract's return data from a successful ResponseDeliverTx.
 func probeRet(data []byte) string {
